@@ -318,6 +318,9 @@ def rnd_script(rnd, sid, fam):
         slots.append((p, m))
     # spare slots on the same paths for re-registration under a new object
     names = files + ALIAS[:rnd.randint(0, 4)] + ["x", "y"]
+    if rnd.random() < 0.25:
+        # names at the upper end of what a directory entry may have (NAME_MAX = 255)
+        names.append("L" * rnd.choice([239, 240, 255, 255]))
 
     def target_dir():
         return rnd.choice(dirs)
@@ -438,6 +441,40 @@ def run_scripts(exe, scripts, sc, tag, per_file=1200):
 
 def validate(tfs, sc):
     return vlib.validate_traces(tfs, sc, module="TraceInotify.tla", cfg="TraceInotify.cfg", timeout=1200)
+
+
+def run_subset(tier, seed, sc, rep, pid="C01"):
+    """C01 for inotify objects: nothing of a watch or an instance is called or touched after its unregister
+    call returned.  Random programs (handlers that unregister watches / the instance, deleted files) judged by
+    MonInotify; only the rules about released objects count here."""
+    exe = build("plain")
+    scripts = random_scripts(seed + 4711, 1200 if tier == "quick" else 15000)
+    idx = {script_id(x): x for x in scripts}
+    tfs = run_scripts(exe, scripts, sc, "c01ino")
+    verdicts, nev = validate(tfs, sc)
+    if len(verdicts) != len(scripts):
+        raise vlib.MachineryError("%d inotify scripts but %d verdicts" % (len(scripts), len(verdicts)))
+    mine = ("C20:after-unreg", "C20:uaf-instance", "C20:uaf-watch", "C20:touch", "C20:crash", "C20:stale-watch", "C20:crash-unregister-term")
+    bad = collections.OrderedDict()
+    nseen = 0
+    for v in verdicts:
+        nseen += 1 if "C20:after-unreg" in v["seen"] or "C20:order" in v["seen"] else 0
+        rules = [r for r in v["viols"] if r in mine]
+        if rules:
+            bad[v["id"]] = rules
+    pick = sorted(bad, key=lambda sid: (len(idx[sid]), sid))[:10]
+    if pick:
+        tf2 = run_scripts(exe, [idx[x] for x in pick], sc, "c01inoconfirm")
+        v2, _ = validate(tf2, sc)
+        again = {v["id"]: set(v["viols"]) for v in v2}
+        for sid in pick:
+            for r in bad[sid]:
+                if r in again.get(sid, ()):
+                    rep.violation("C01:inotify/" + r, vlib.save_replay_text(pid, idx[sid]),
+                                  "inotify script %s; %d scripts violate in this run" % (sid, len(bad)))
+    if not nseen:
+        raise vlib.MachineryError("inotify subset vacuous")
+    rep.add(inotify_scripts=len(scripts), inotify_events=nev)
 
 
 def run(pid, tier, seed, replay=None):
